@@ -114,6 +114,8 @@ type InterpModel struct {
 	KeepAsEvent func(fn *ssa.Function) bool
 	// MainMode: used for package main — module calls are events (nothing is inlined) and loads of
 	// the two error flags fork over both values
+	// Unroll: nested activations of one helper function inlined (Machine.Unroll)
+	Unroll   int
 	MainMode bool
 	// InlinePkg: in MainMode, callees of this package are inlined too (except InlineStop names)
 	InlinePkg  string
@@ -447,6 +449,9 @@ func (m *InterpModel) Call(mc *Machine, st *State, call ssa.CallInstruction, cal
 						ts[i] = Sym(fmt.Sprintf("io%s#%d", valName, i))
 					}
 					res = AV{K: KTuple, T: ts}
+					if tup.Len() > 0 && typeStr(tup.At(tup.Len()-1).Type()) == "error" {
+						e.KV["haserr"] = "T"
+					}
 				}
 			}
 			return []Outcome{{Result: res, Apply: func(s *State) { m.Emit(s, e) }}}, true
@@ -683,7 +688,7 @@ func (m *InterpModel) Branch(mc *Machine, st *State, in *ssa.If, cond AV, taken 
 		}
 	}
 	// lowered slice ranges: `i < len(xs)` on a counter φ — recognised by block comment
-	if strings.HasPrefix(in.Block().Comment, "rangeindex.loop") {
+	if strings.HasPrefix(in.Block().Comment, "rangeindex.loop") || rangeLikeCounter(in.Block()) != nil {
 		subj := rangeSubject(in)
 		if bo, ok := in.Cond.(*ssa.BinOp); ok {
 			if la := lenArg(bo.Y); la != nil {
@@ -820,6 +825,7 @@ func (m *InterpModel) Explore(fn *ssa.Function, params []AV, init func(*State)) 
 	mc := NewMachine(m.p, m)
 	m.Attach(mc)
 	mc.Inline = func(c *ssa.Function) bool { return true }
+	mc.Unroll = m.Unroll
 	mc.Start(fn, params, func(st *State) {
 		m.setNode(st, m.G.Start)
 		if init != nil {
